@@ -445,6 +445,12 @@ impl BitVector {
             // Truncate
             self.len = new_len;
 
+            // keep the invariant "every bit at a position >= len is zero" for whole blocks too
+            let keep = (new_len + BITS_PER_BLOCK - 1) / BITS_PER_BLOCK;
+            for block in self.blocks.iter_mut().skip(keep) {
+                *block = 0;
+            }
+
             // Clear bits in the last partial block
             if new_len > 0 {
                 let last_block_index = (new_len - 1) / BITS_PER_BLOCK;
